@@ -16,7 +16,7 @@ func init() {
 			"D1 the type-conflict rejection path: in Shard.validateSeriesAndFields a point whose validation failed is never kept and a point whose validation succeeded is always kept (per loop iteration, on every path), every rejection is counted, a non-partial error aborts, and a positive drop count surfaces as a PartialWriteError; Shard.WritePointsWithContext hands the engine exactly the validated slice, aborts before the engine on a non-partial error and returns the partial error after a successful engine write; in the engine, a field flagged with ErrFieldTypeConflict is never appended to the values written and the conflict is the function's result; " +
 			"D2 one type per field: MeasurementFields.CreateFieldIfNotExists re-checks under its mutex against the re-read map (shared with C19); the cache's per-entry type tag distinguishes all five value types; " +
 			"D3 the value-type dispatch on the write path is exhaustive over the five field types; " +
-			"D4 two structural necessary conditions of last-write-wins on the read path: Values.Deduplicate (and its typed siblings) sort with a stable sort so that among equal timestamps the later write stays last, and every block a KeyCursor reads is filtered with the tombstones of the file the block came from; D5 who may hand out a cache entry's own value slice (frozen table: Cache.values, called only by the compactor's cache key iterator).",
+			"D4 two structural necessary conditions of last-write-wins on the read path: Values.Deduplicate (and its typed siblings) sort with a stable sort so that among equal timestamps the later write stays last, and every block a KeyCursor reads is filtered with the tombstones of the file the block came from; D5 who may hand out a cache entry's own value slice (frozen table: Cache.values, called only by the compactor's cache key iterator). D6 the cache read concatenates the retained snapshot's entry before the live store's entry on every path (Values.Deduplicate keeps the last value of a timestamp, so the reverse order lets an older snapshot value override a newer acknowledged write while a snapshot is in flight or retained after a failed flush) (shared with C09/C11).",
 		RuleText:    "obligation = (rule, function, site); per-iteration marked path exploration with outcome facts; type-switch / value-switch exhaustiveness against the five-type family",
 		Assumptions: commonAssumptions,
 	}, runC02)
@@ -378,6 +378,7 @@ func runC02(c *core.Ctx) {
 	})
 
 	c.Clause("D4", func() { runReadPathStructure(c) })
+	c.Clause("D6", func() { runCacheReadOrder(c) })
 
 	c.Clause("D5", func() {
 		// Who may hand out a cache entry's own value slice: readers sort, deduplicate and filter what they are
